@@ -589,6 +589,19 @@ pub fn fc() -> OptionParser<bool> {
     construct!(a).to_options()
 }
 
+/// an adjacent option-struct whose argument has a user completer, between a switch and an argument of the level
+pub fn ka() -> OptionParser<(bool, Option<(u32, bool)>, Option<u32>)> {
+    let v = short('v').long("verbose").switch();
+    let r = short('r').long("rect").req_flag(());
+    let w = short('w').long("width").argument::<u32>("W");
+    #[cfg(feature = "full")]
+    let w = w.complete(|_| vec![("1", None), ("2", Some("two"))]);
+    let f = short('f').long("fill").switch();
+    let rect = construct!(r, w, f).adjacent().map(|t| (t.1, t.2)).optional();
+    let o = short('o').long("output").argument::<u32>("OUT").optional();
+    construct!(v, rect, o).to_options()
+}
+
 /// switch declared before a repeated argument (the switch's consumption precedes the loop)
 pub fn g4() -> OptionParser<(bool, Vec<u32>, u32)> {
     let a = short('a').long("alpha").switch();
